@@ -126,7 +126,7 @@ class Aggregate(list):
             predicate: Callable[[int], bool],
         ) -> None:
             for mutex in mutexes:
-                count = sum([kwargs.get(m, None) is not None for m in mutex])
+                count = sum([kwargs.get(m, None) not in (None, "") for m in mutex])
                 if not predicate(count):
                     kwargs_ = ", ".join(
                         ["{}={}".format(m, kwargs.get(m, None)) for m in mutex]
